@@ -12,13 +12,22 @@
     locations (goto_definition, references), the ranges `iter_symbols_in_range` hands to inlay_hint, define_loc /
     reference_locs of every symbol (document_symbol ranges, hover), and the index diagnostics -- is valid: names
     a workspace file, lo <= hi <= byte length, both ends on UTF-8 character boundaries ([range_valid_spec]).
-    MISSING for the full statement: the indexer (index.rs: that it only passes ranges of tokens/nodes of the
-    current tree paired with the file on top of the include stack) and the tree-derived ranges (folding ranges,
-    document links, inlay-hint positions, syntax-error diagnostics, `range_excluding_trivia`).  Those are
-    covered by the implementation-side oracle of checks/C17.py on EVERY range of EVERY real result. *)
+    ALSO PROVED (tree part, importing C01/C02 of the parser group and Folding of the outline group): for the
+    parse of ANY text of a workspace file -- the syntax-error diagnostics, every node and token range, every
+    `utils::range_excluding_trivia` of a node (document links = trimmed range of the include's path node) and
+    every folding range (`Folding.folding_model`) are valid in that file ([C17_parse_ranges_valid]); for ANY
+    green tree the same w.r.t. the tree's own text ([C17_tree_ranges_valid], [C17_folding_ranges_valid]).
+    STILL MISSING for the full statement: the indexer (index.rs: that the ranges it passes to the symbol map
+    are ranges of tokens/nodes of the tree of the file on top of the include stack -- this is the checked
+    hypothesis ops_ranges_wf), the pairing of tree ranges with the right file in the handlers, and the
+    inlay-hint positions as computed by inlay_hint.rs (they are starts of argument nodes / ends of interval keys,
+    both covered above, but the handler itself is not connected).  The implementation-side oracle of
+    checks/C17.py checks EVERY range of EVERY real result. *)
 From Coq Require Import List NArith.
 From TG.Model Require Import Chars SymbolMap SymbolWf.
-From TG.Proofs Require Import SymbolRanges.
+From TG.Gen Require Import GenTokens GenGrammar.
+From TG.Model Require Import Tree TreeNav ParserPrims GInterp Folding.
+From TG.Proofs Require Import SymbolRanges SymbolRangesTree.
 Import ListNotations.
 Open Scope N_scope.
 
@@ -53,6 +62,55 @@ Theorem C17_nonvacuous : ops_ranges_wf [(0, c17_text)] c17_ops = true /\
   range_valid [(0, c17_text)] (mkFR 0 12 14) = true /\ range_valid [(0, c17_text)] (mkFR 0 13 14) = false /\
   range_valid [(0, c17_text)] (mkFR 0 26 28) = false /\ range_valid [(1, c17_text)] (mkFR 0 6 7) = false.
 Proof. exact c17_ex. Qed.
+
+(** ---- tree-derived ranges *)
+
+(** For ANY green tree and any workspace in which file f has the tree's text: every node range, every token
+    range and every trimmed node range (utils::range_excluding_trivia) is valid in f. *)
+Theorem C17_tree_ranges_valid : forall t ws f, fmap_get ws f = Some (tree_text t) ->
+  (forall lo hi n, In (lo, hi, n) (descendants t) -> range_valid ws (mkFR f lo hi) = true) /\
+  (forall l, In l (leaves t) -> range_valid ws (mkFR f (lf_lo l) (lf_hi l)) = true) /\
+  (forall lo hi n, In (lo, hi, n) (descendants t) ->
+     range_valid ws (mkFR f (fst (range_excluding_trivia lo n)) (snd (range_excluding_trivia lo n))) = true).
+Proof. exact c17_tree_ranges_valid. Qed.
+
+(** ... in particular every folding range of the model of folding_range::exec *)
+Theorem C17_folding_ranges_valid : forall t ws f, fmap_get ws f = Some (tree_text t) ->
+  forall r, In r (folding_model t) -> range_valid ws (mkFR f (fst r) (snd r)) = true.
+Proof. exact c17_folding_ranges_valid. Qed.
+
+(** The parse of the text of a workspace file, with the grammar regenerated from the current sources: syntax-error
+    ranges (C02), node / token ranges and trimmed node ranges incl. document links (C01), folding ranges. *)
+Theorem C17_parse_ranges_valid : forall fuel txt t errs st ws f,
+  fmap_get ws f = Some txt ->
+  parse_with fuel grammar_prog grammar_entry txt = ParseOk t errs st ->
+  (forall lo hi m, In (lo, hi, m) errs -> range_valid ws (mkFR f lo hi) = true) /\
+  (forall lo hi n, In (lo, hi, n) (descendants t) -> range_valid ws (mkFR f lo hi) = true) /\
+  (forall l, In l (leaves t) -> range_valid ws (mkFR f (lf_lo l) (lf_hi l)) = true) /\
+  (forall lo hi n, In (lo, hi, n) (descendants t) ->
+     range_valid ws (mkFR f (fst (range_excluding_trivia lo n)) (snd (range_excluding_trivia lo n))) = true) /\
+  (forall r, In r (folding_model t) -> range_valid ws (mkFR f (fst r) (snd r)) = true).
+Proof. exact c17_parse_ranges_valid. Qed.
+
+(** non-vacuity of the parse hypotheses: "class A;\n// é\nclass B : A;" parses; 2 folding ranges, the second one
+    starts after the two-byte character *)
+Example C17_parse_nonvacuous : exists t errs st,
+  parse_with 100 grammar_prog grammar_entry c17_text = ParseOk t errs st /\
+  folding_model t = [(0, 8); (15, 27)] /\ (10 <= List.length (descendants t))%nat.
+Proof. vm_compute. do 3 eexists. split; [reflexivity|]. split; [reflexivity|]. repeat constructor. Qed.
+
+Check C17_parse_ranges_valid : forall fuel txt t errs st ws f,
+  fmap_get ws f = Some txt ->
+  parse_with fuel grammar_prog grammar_entry txt = ParseOk t errs st ->
+  (forall lo hi m, In (lo, hi, m) errs -> range_valid ws (mkFR f lo hi) = true) /\
+  (forall lo hi n, In (lo, hi, n) (descendants t) -> range_valid ws (mkFR f lo hi) = true) /\
+  (forall l, In l (leaves t) -> range_valid ws (mkFR f (lf_lo l) (lf_hi l)) = true) /\
+  (forall lo hi n, In (lo, hi, n) (descendants t) ->
+     range_valid ws (mkFR f (fst (range_excluding_trivia lo n)) (snd (range_excluding_trivia lo n))) = true) /\
+  (forall r, In r (folding_model t) -> range_valid ws (mkFR f (fst r) (snd r)) = true).
+Print Assumptions C17_tree_ranges_valid.
+Print Assumptions C17_folding_ranges_valid.
+Print Assumptions C17_parse_ranges_valid.
 
 Check C17_symbol_ranges_valid_partial : forall ws ops S,
   ops_ranges_wf ws ops = true -> run_ops ops = SOk S ->
